@@ -598,7 +598,7 @@ Qed.
 
 Theorem guard_inhabited_sound : forall g, guard_inhabited g = true -> exists v, guard_check g v = None.
 Proof.
-  intros [|lo hi ls hs|lo ls]; cbn [guard_inhabited].
+  intros [|lo hi ls hs|lo ls|n]; cbn [guard_inhabited].
   - intros _. exists VNone. reflexivity.
   - destruct ls, hs; cbn [andb orb]; intros H.
     + (* both strict: lo + 1/2 *)
@@ -614,6 +614,8 @@ Proof.
       apply Z.compare_gt_iff in E. lia.
   - intros _. exists (VInt (lo + 1)). cbn [guard_check num_of]. unfold lo_ok. rewrite cmp_bound_int.
     assert (E : (lo + 1 ?= lo)%Z = Gt) by (apply Z.compare_gt_iff; lia). rewrite E. reflexivity.
+  - intros H. apply Z.leb_le in H. exists (VList (repeat VNone (Z.to_nat n))). cbn [guard_check].
+    rewrite repeat_length, Z2Nat.id by assumption. rewrite Z.eqb_refl. reflexivity.
 Qed.
 
 Theorem guards_inhabited_all : forall tbl,
